@@ -18,6 +18,9 @@
 //          plambda=<k>     vdcma: lambda() = k after init;   ppop=<k> psel=<k>   cem: populationSize() / selectionSize() after init
 //          var=scalar|vec  cem: setVariance(double) | a non-uniform variance vector (long overload / setVariance(vector))
 //          noise=const:<c> | lin:<a>:<b>   cem: setNoiseType(ConstantNoise | LinearNoise)
+//          mid=<k>:<action>   a setter called in the MIDDLE of every run of the case, before step k (run ops only):
+//                          active:<0|1> (ecma) | sigma:<x> (ecma sigma(), vdcma setSigma) | lb:<x> (cma setLowerBound) |
+//                          var:<x> (cem setVariance) | pop:<l>:<m> (cem populationSize/selectionSize; vdcma lambda() = l)
 //   run <seed> <steps> <target> <x0 n>   init + steps, 8 runs: fresh, fresh again, RE-INITIALISED used object, an object
 //        that was used on a DIFFERENT problem (other dimension, start, seed) and then initialised, 3 exact
 //        rescalings of f, (all with the same seed); prints the final solution, a digest and the oracle verdicts
@@ -420,6 +423,28 @@ static double checkState(Config const& c, OptBase& o, Trace& t){
 	return 1.0;
 }
 
+// a setter of the public interface called between two steps
+static std::vector<std::string> splitColon(std::string const& v){
+	std::vector<std::string> q; std::string cur;
+	for(char ch: v){ if(ch == ':'){ q.push_back(cur); cur.clear(); } else cur += ch; }
+	q.push_back(cur);
+	return q;
+}
+static void applyMid(Config const& c, OptBase& o, std::vector<std::string> const& q){
+	std::string const& a = q.at(1);
+	if(a == "active" && c.kind == "ecma") static_cast<ElitistCMA&>(o).activeUpdate() = Config::number(q.at(2)) != 0;
+	else if(a == "sigma" && c.kind == "ecma") static_cast<ElitistCMA&>(o).sigma() = Config::number(q.at(2));
+	else if(a == "sigma" && c.kind == "vdcma") static_cast<VDCMA&>(o).setSigma(Config::number(q.at(2)));
+	else if(a == "lb" && c.kind == "cma") static_cast<CMA&>(o).setLowerBound(Config::number(q.at(2)));
+	else if(a == "var" && c.kind == "cem") static_cast<CrossEntropyMethod&>(o).setVariance(Config::number(q.at(2)));
+	else if(a == "pop" && c.kind == "cem"){
+		static_cast<CrossEntropyMethod&>(o).populationSize() = (unsigned)Config::number(q.at(2));
+		static_cast<CrossEntropyMethod&>(o).selectionSize() = (unsigned)Config::number(q.at(3));
+	}
+	else if(a == "pop" && c.kind == "vdcma") static_cast<VDCMA&>(o).lambda() = (std::size_t)Config::number(q.at(2));
+	else throw std::runtime_error("bad-op");
+}
+
 // init (of a fresh or of an already used object) + steps, with the per-step oracle
 static Trace runOnce(Config const& c, Holder& h, Obj& f, int phi, unsigned seed, unsigned variant, std::size_t steps, RealVector const& x0){
 	Trace t;
@@ -431,7 +456,10 @@ static Trace runOnce(Config const& c, Holder& h, Obj& f, int phi, unsigned seed,
 	// penalized fitness is monotone
 	bool elitist = (c.kind == "ecma" && !f.soft) || c.kind == "simplex";
 	double lastAccepted = 0;
+	std::vector<std::string> mid; std::size_t midStep = 0;
+	if(c.has("mid")){ mid = splitColon(c.opt("mid")); midStep = (std::size_t)Config::number(mid.at(0)); }
 	for(std::size_t s = 0; s <= steps; ++s){
+		if(s && s == midStep) applyMid(c, o, mid);
 		if(s) o.step(f);
 		RealVector const& p = o.solution().point; double v = o.solution().value;
 		t.pts.push_back(p); t.vals.push_back(v);
